@@ -180,6 +180,11 @@ class RenderCount:
                     ks = self.keys_of(f.value, env)
                     for key in ks:
                         if key == ("self", ""):
+                            if f.attr != "rebuild_scoped" and not (isinstance(f.value, ast.Name) and f.value.id == "self"):
+                                # a *copy* of the node itself is rendered: every child rendered so far on this path is rendered again
+                                self.render_sites += 1
+                                for k2 in [k_ for k_, v_ in list(counts.items()) if v_ >= 1]:
+                                    self.addc(counts, k2, e)
                             continue
                         self.render_sites += 1
                         self.addc(counts, key, e)
